@@ -7,7 +7,7 @@ BASELINE = "cd /repo && /venv/bin/python -m pytest -ra -q -p no:cacheprovider --
 CHECKS = {
  "C03": dict(engine="E-engine-harness", category="exploration", design_ref="2/C03",
    technique="property-based testing: Hypothesis-generated one-sided histories against a file-tree reference model (mirror oracle), per-step origin-snapshot invariant, no-echo call-log invariant; trace-level ddmin shrinking",
-   text="Generated one-sided operation histories (all four id/path provider flavours, arbitrary interleaving of single production-loop iterations) are executed against the real engine and compared with a pure reference tree at every quiet point; the origin side is snapshotted around every engine step and the engine's provider call log must stay silent after quiet. No counter-example in the explored domain is the claim; absence is not established.",
+   text="Generated one-sided operation histories (all four id/path provider flavours, arbitrary interleaving of single production-loop iterations) are executed against the real engine and compared with a pure reference tree at every quiet point; the origin side is snapshotted around every engine step and the engine's provider call log must stay silent after quiet. Part 'starved' generates schedules in which the origin's event loop runs once and then only the sync loop (with time passing) and the other side's intake run while the user keeps working on the same objects. No counter-example in the explored domain is the claim; absence is not established.",
    note="Trusted: mock providers as stand-ins for accounts, harness shims (virtual clock, deterministic ids/hash order), reference tree model. Domain narrowed by the hazards listed in evidence.assumptions (open known findings)."),
 }
 E_NOTE = "Schedules: single production-loop iterations in arbitrary order incl. starvation bursts, with virtual time passing between them; flavours: four id/path pairs, provider-side event filtering, roots by id, (C01/C03/C04) case-insensitive id/id with variant spellings. Trusted: mock providers as stand-ins for accounts, harness shims (virtual clock, deterministic ids/hash order), reference tree model. Domain narrowed by the hazards listed in evidence.assumptions (each backed by an open known finding with a replayed witness)."
